@@ -21,6 +21,9 @@ package webhook
 //@ func (*multiClusterTokenReviewAuthenticator).AuthenticateToken props C12
 //@   requires [cache_inv] forall h string :: {smhas(CACHES, box(h))} smhas(CACHES, box(h)) ==> boundTo(smget(CACHES, box(h)), a, h)
 //@   modifies smap(&a.caches), cfcalls, cfname, cferr, lbstate, trcount, trclient, spawned
+//@   rely [caches_bound] forall h string :: {smhas(CACHES, box(h))} smhas(CACHES, box(h)) ==> boundTo(smget(CACHES, box(h)), a, h)
+//@   guarantee [caches_bound] (forall h string :: {old(smhas(CACHES, box(h)))} old(smhas(CACHES, box(h))) ==> boundTo(old(smget(CACHES, box(h))), a, h)) ==> forall h string :: {smhas(CACHES, box(h))} smhas(CACHES, box(h)) ==> boundTo(smget(CACHES, box(h)), a, h)
+//@   guarantee [published_once] forall k ref :: {smhas(CACHES, k)} old(smhas(CACHES, k)) ==> smhas(CACHES, k) && smget(CACHES, k) == old(smget(CACHES, k))
 //@   ensures [cache_inv] forall h string :: {smhas(CACHES, box(h))} smhas(CACHES, box(h)) ==> boundTo(smget(CACHES, box(h)), a, h)
 //@   ensures [own_host] defined(host) ==> cfcalls > old(cfcalls) && forall k int :: {cfname[k]} old(cfcalls) <= k && k < cfcalls ==> cfname[k] == host
 //@   ensures [own_cluster] defined(host) ==> trcount >= old(trcount) && (trcount > old(trcount) ==> reg[PROV][toLower(host)] != nil && clusterOfClient(trclient) == reg[PROV][toLower(host)])
